@@ -2,6 +2,7 @@ package pypi
 
 import (
 	"fmt"
+	"strconv"
 	"strings"
 )
 
@@ -97,9 +98,21 @@ func parseCompatibleRelease(version string) ([]*constraint, error) {
 		}, nil
 	}
 
-	// ~=1.4.2 is equivalent to >=1.4.2, <1.5.0
-	if len(v.release) >= 2 {
-		upperVersion := fmt.Sprintf("%d.%d.0", v.release[0], v.release[1]+1)
+	// ~=V is equivalent to >=V, ==V[:-1].*: the last release segment is dropped and the one before it is bumped
+	// (~=2.2 is >=2.2, <3.0; ~=1.4.2 is >=1.4.2, <1.5.0; ~=1.4.2.1 is >=1.4.2.1, <1.4.3.0)
+	if n := len(v.release); n >= 2 {
+		upper := make([]string, n-1)
+		for i := range upper {
+			segment := v.release[i]
+			if i == n-2 {
+				segment++
+			}
+			upper[i] = strconv.Itoa(segment)
+		}
+		upperVersion := strings.Join(upper, ".") + ".0"
+		if v.epoch != 0 {
+			upperVersion = fmt.Sprintf("%d!%s", v.epoch, upperVersion)
+		}
 		return []*constraint{
 			{operator: ">=", version: version},
 			{operator: "<", version: upperVersion},
